@@ -70,6 +70,8 @@ def strategy_case(draw):
         case["R2"] = draw(gen.ranks(d, 4 if routine != "amen_mm" else 3))
         if routine == "amen_mm":
             case["K"] = draw(gen.modes(d, d, sizes, maxnumel=lim, distinct_bias=0.3))
+    if draw(st.integers(0, 19)) == 0:
+        case["zero_operand"] = draw(st.sampled_from([1, 2]))     # one core of that operand is set to zero: the product is the zero tensor
     if draw(st.floats(0, 1)) < 0.35:
         case["init_R"] = draw(gen.ranks(d, 5, rank1_bias=0.1))
         case["init_seed"] = draw(gen.SEED)
@@ -91,11 +93,18 @@ def features(case):
 def _operand(case, N, M, R, g, seed_off):
     dt = case["dt"]
     if case["spectrum"] == "decay":
-        return decaying_cores(N, M, case["r"], case["rho"], dt, g)
+        return _maybe_zero(case, decaying_cores(N, M, case["r"], case["rho"], dt, g), seed_off)
     spec = {"N": N, "R": R, "dt": dt, "mode": "gauss", "seed": case["seed"] + seed_off}
     if M is not None:
         spec["M"] = M
-    return core.make_cores(spec)
+    return _maybe_zero(case, core.make_cores(spec), seed_off)
+
+
+def _maybe_zero(case, cores, seed_off):
+    if case.get("zero_operand") == seed_off + 1:
+        k = case["seed"] % len(cores)
+        cores[k] = torch.zeros_like(cores[k])
+    return cores
 
 
 def execute(case):
@@ -158,8 +167,9 @@ def execute(case):
             ck.label("initial_guess_is_operand")
     nref = fro(ref)
     if nref == 0:
-        ck.label("zero_product_skipped")
-        return ck.verdict()
+        # the exact product is the zero tensor: the routine must still return a TT of the right shape whose value is within
+        # the roundoff term of the allowance (exactly zero when an operand has a zero core)
+        ck.label("zero_product")
     torch.manual_seed(case["lib_seed"])
     if routine == "fast_matvec":
         y = lib(lambda: a.fast_matvec(b, eps=eps, initial=init, use_cpp=False))
